@@ -34,14 +34,20 @@ ValSeq(m) == LET ks == SetToSeq(DOMAIN m) IN [k \in 1..Len(ks) |-> m[ks[k]]]
 Unordered(xs) == IF Len(xs) <= 1 THEN OV(ListV(xs)) ELSE OU(ListV(xs))
 
 \* nested get through maps (by key) and vectors (by index); the empty path is the value itself
-\* (documented in tests/stepG_infunctions.mal)
+\* (documented in tests/stepG_infunctions.mal).  README: "ks must be a vector of hash map keys": below a
+\* missing or nil-valued map entry the implementation goes on in an EMPTY MAP, so the rest of the path is
+\* in the documented domain only when it consists of map keys (then the answer is nil); a nil ELEMENT OF A
+\* VECTOR followed by more path is documented nowhere (unspecified).
+RestKeyable(path, i) == \A j \in i..Len(path) : IsKeyable(path[j])
 RECURSIVE GetIn(_, _, _)
 GetIn(v, path, i) ==
   IF i > Len(path) THEN OV(v)
   ELSE IF v.t = "nil" THEN OV(NilV)
   ELSE IF v.t = "map" /\ IsKeyable(path[i]) THEN
-       IF KeyOf(path[i]) \in DOMAIN v.m THEN GetIn(v.m[KeyOf(path[i])], path, i + 1) ELSE OV(NilV)
-  ELSE IF v.t = "vec" /\ path[i].t = "int" /\ path[i].i >= 0 /\ path[i].i < Len(v.xs) THEN GetIn(v.xs[path[i].i + 1], path, i + 1)
+       IF KeyOf(path[i]) \in DOMAIN v.m /\ v.m[KeyOf(path[i])].t # "nil" THEN GetIn(v.m[KeyOf(path[i])], path, i + 1)
+       ELSE IF RestKeyable(path, i + 1) THEN OV(NilV) ELSE OX
+  ELSE IF v.t = "vec" /\ path[i].t = "int" /\ path[i].i >= 0 /\ path[i].i < Len(v.xs) THEN
+       IF v.xs[path[i].i + 1].t = "nil" /\ i < Len(path) THEN OX ELSE GetIn(v.xs[path[i].i + 1], path, i + 1)
   ELSE OX
 
 RECURSIVE AssocIn(_, _, _, _)
